@@ -130,7 +130,11 @@ func init() {
 			if tier == "thorough" {
 				budget = pick(r, []int{2500, 8000, 60000})
 			}
-			return &C04Spec{WL: genSweepableWL(r, budget, false), Orders: genOrders(r, seed), Budget: budget, Seed: seed}
+			s := &C04Spec{WL: genSweepableWL(r, budget, false), Orders: genOrders(r, seed), Budget: budget, Seed: seed}
+			if s.WL.Sep.Kind == "draw" && r.Bool() {
+				s.WL.Sep.Kind = "draw0" // same draws, but the function reports entropy 0: each gap is still a fresh draw
+			}
+			return s
 		},
 		Decode: decodeInto[C04Spec],
 		Run:    runC04,
@@ -161,6 +165,26 @@ func init() {
 				budget = pick(r, []int{2000, 8000, 40000})
 			}
 			s := &C06Spec{Orders: genOrders(r, seed), Budget: budget, Seed: seed}
+			if r.Chance(0.25) {
+				s.Large = true
+				if r.Chance(0.6) {
+					cc := genLargeCharCfg(r)
+					s.Char = &cc
+				} else {
+					w := genWLCfg(r, wlOpt{list: listOpt{min: 1, max: 9, twins: 0.2, precap: 0.15, caseless: 0.15, dups: 0.1}, maxLen: 4})
+					if w.Sep.Kind == "altempty" || w.Sep.law() == nil {
+						w.Sep = SepCfg{Kind: "preset", Preset: pick(r, presetNames)}
+					}
+					w.Length = pick(r, []int{5, 17, 40, 64, 72, 73, 100, 237, 300, 647, 700})
+					if r.Chance(0.4) {
+						s.Shipped = pick(r, []string{"words", "syllables"})
+						s.Orders.Visit, s.Orders.Words = "native", "sorted"
+						w.Words = nil
+					}
+					s.WL = &w
+				}
+				return s
+			}
 			if r.Chance(0.45) {
 				cc := genCharCfg(r, charOpt{small: true, budget: int64(budget), maxLen: 6, maxReq: 4, noEmptied: true})
 				s.Char = &cc
@@ -275,6 +299,8 @@ func compareLaws(got, want Law) string {
 }
 
 type C06Spec struct {
+	Large  bool      `json:"large,omitempty"` // too large to sweep: reported entropy vs the model's exact count / formula
+	Shipped string   `json:"shipped,omitempty"`
 	WL     *WLCfg    `json:"wl,omitempty"`
 	Char   *CharCfg  `json:"char,omitempty"`
 	Orders OrderSpec `json:"orders"`
@@ -305,6 +331,10 @@ func checkEntropyBound(c *Ctx, what string, pmax *big.Rat, h float32, uniform bo
 func runC06(c *Ctx, si interface{}) {
 	s := si.(*C06Spec)
 	curOrders = s.Orders
+	if s.Large {
+		runC06Large(c, s)
+		return
+	}
 	if s.WL != nil {
 		b := s.WL.build()
 		if b.List == nil {
@@ -397,4 +427,106 @@ func runC06(c *Ctx, si interface{}) {
 	}
 	c.Sample(map[string]interface{}{"recipe": s.Char.String(), "entropy": float32(e.F), "max_probability": pmax.RatString()})
 	_ = spg.MaxTrials
+}
+
+// runC06Large: configurations far too large to sweep. The generator's law is tied to the model
+// on small configurations (C02/C04); here the reported entropy is compared with the model's
+// min-entropy: log2 of the exact count of satisfying strings (character recipes) or the
+// product-form value (wordlist recipes).
+func runC06Large(c *Ctx, s *C06Spec) {
+	if s.Char != nil {
+		cfg := *s.Char
+		rec := cfg.Recipe()
+		m := modelChar(cfg)
+		if m.Emptied > 0 || len(m.A) == 0 || len(m.Req) > 8 {
+			return
+		}
+		cnt := m.Count()
+		if cnt.Sign() <= 0 {
+			return
+		}
+		e := entropyOp(NewTape(TapeSpec{Mode: "raw"}), &rec)
+		c.Eval(1)
+		c.T(e.brief())
+		c.Distinct("large-char", cfg.String())
+		c.Count("large_char_configs_compared_with_model_count", 1)
+		if e.Kind != "ok" {
+			c.Count("entropy_panicked", 1)
+			return
+		}
+		if len(m.A) >= 200 {
+			c.Probe("alphabet_of_200_or_more_characters", 1)
+		}
+		if cfg.Length >= 128 {
+			c.Probe("length_128_or_more", 1)
+		}
+		// uniform over the satisfying strings (C02): the most likely password has probability 1/count
+		pmax := new(big.Rat).SetFrac(big.NewInt(1), cnt)
+		if !checkEntropyBound(c, cfg.String()+" (too large to sweep: exact count of satisfying strings from the model)", pmax, float32(e.F), true) {
+			return
+		}
+		g := genOp(NewTape(TapeSpec{Mode: "choice", Seed: s.Seed, Default: "random"}), &rec)
+		if g.Kind == "ok" && g.Pw.Entropy != float32(e.F) && !(math.IsNaN(e.F) && g.Pw.Entropy != g.Pw.Entropy) {
+			c.Violate("password-entropy-field", "", "%s: Password.Entropy = %v but Entropy() = %v", cfg, g.Pw.Entropy, float32(e.F))
+		}
+		return
+	}
+	cfg := *s.WL
+	var kept []string
+	var allCap bool
+	var rec *spg.WLRecipe
+	if s.Shipped != "" {
+		wl := shippedBuilt[s.Shipped+s.Orders.Words]
+		if wl == nil {
+			var err error
+			if wl, err = spg.NewWordList(shippedLists[s.Shipped]); err != nil {
+				return
+			}
+			shippedBuilt[s.Shipped+s.Orders.Words] = wl
+		}
+		b := cfg.build()
+		r := b.Recipe
+		rr := spg.NewWLRecipe(cfg.Length, wl)
+		rr.Capitalize, rr.SeparatorChar, rr.SeparatorFunc = r.Capitalize, r.SeparatorChar, r.SeparatorFunc
+		rec = rr
+		ml := modelList(shippedLists[s.Shipped])
+		kept, allCap = ml.Kept, ml.AllCap
+	} else {
+		b := cfg.build()
+		if b.List == nil {
+			return
+		}
+		rec = &b.Recipe
+		ml := modelList(cfg.Words)
+		if !ml.premiseOK() {
+			return
+		}
+		kept, allCap = ml.Kept, ml.AllCap
+	}
+	sl := cfg.Sep.law()
+	if sl == nil {
+		return
+	}
+	want := wlEntropyFormula(len(kept), allCap, cfg.Length, cfg.Cap, sl.Entropy)
+	e := entropyOp(NewTape(TapeSpec{Mode: "choice", Seed: s.Seed, Default: "random"}), rec)
+	c.Eval(1)
+	c.T(e.brief())
+	c.Distinct("large-wl", cfg.String(), s.Shipped)
+	c.Count("large_wl_configs_compared_with_product_form", 1)
+	if e.Kind != "ok" {
+		return
+	}
+	H := e.F
+	if math.IsNaN(H) {
+		c.Violate("entropy-nan", "", "%s (%s): Entropy() is NaN", cfg, s.Shipped)
+		return
+	}
+	tol := entTol(want)
+	if H > want+tol {
+		c.Violate("entropy-overstated", "", "%s (list %s, %d kept words): Entropy() = %v bits but the most likely password has probability 2^-%.4f (product form of the recipe)", cfg, s.Shipped, len(kept), float32(H), want)
+		return
+	}
+	if H < want-tol {
+		c.Violate("entropy-not-tight", "", "%s (list %s, %d kept words): Entropy() = %v bits, the min-entropy is %.4f", cfg, s.Shipped, len(kept), float32(H), want)
+	}
 }
